@@ -359,3 +359,45 @@ CHECKS["C19"] = {
     "technique": "bounded symbolic evaluation (z3) of the SQL text captured from the real store, against a reference over this ledger's rows",
     "units": [py_unit("reads", "reads-C19", ["--props", "C19"])],
 }
+
+
+CHECKS["C04"] = {
+    "level": "other",
+    "explanation": "The current bodies of set_effective_volumes (BEFORE INSERT) and update_effective_volumes (AFTER INSERT) are resolved from the migration files on every run and executed by a PL/pgSQL interpreter on a symbolic moves table. Inductive step: K present rows with distinct seq, arbitrary ledgers/accounts/assets/effective dates (ties allowed) satisfying InvE — post_commit_effective_volumes(m) = fold of the moves of m's (ledger, account, asset) that are not after m in (effective_date, seq) order — then one more row with the greatest seq and an arbitrary effective date (in the past, equal, in the future): before-trigger, insert, after-trigger; z3 decides that InvE holds on the K+1 rows (and on the first insert into an empty partition). One step covers histories of any length. The reads that consume the column (ListAccounts / GetAccount with expand effectiveVolumes and PIT, aggregated balances at a PIT by effective date) are decided in C05 under InvE.",
+    "bounds": {"quick": "K <= 4 pre-existing moves + the inserted one", "thorough": "K <= 7"},
+    "outside": "a multi-row INSERT is taken as successive single-row steps (a volatile trigger function sees the rows inserted earlier by the same statement: documented behaviour, assumed); Moves.ComputePostCommitEffectiveVolumes and the transaction-level expand; concurrency between two inserting transactions",
+    "assumptions": COMMON_ASSUME[2:] + SQL_ASSUME[1:2] + ["the migration resolver keeps the last 'create [or replace] function' of each name in numeric migration order", "row triggers fire per inserted row: BEFORE sets new.*, AFTER sees the row"],
+    "technique": "bounded symbolic execution (z3) of the PL/pgSQL trigger bodies resolved from the migrations: one inductive step from an arbitrary state satisfying the invariant",
+    "units": [py_unit("c04_triggers", "c04", [])],
+}
+
+CHECKS["C18"] = {
+    "level": "other",
+    "explanation": "SQL half: the UpsertAccounts statement (data_batch VALUES, existing_accounts, updated_rows UPDATE ... FROM, inserted_rows INSERT ... SELECT) and the UpdateAccountsMetadata upsert, as emitted by the real store, are executed by the DML executor on a symbolic accounts table: an absent account is inserted with first_usage = the batch row's date (or transaction_date()), metadata = defaults || metadata; a present one keeps its insertion date, gets first_usage = least(old, new), metadata merged and the defaults NOT re-applied; no other row (of this or another ledger) changes. Go half: AccountsWithDefaultMetadata / upsertTransactionAccounts are exercised by the controller harnesses of C07/C08/C29 (every write that involves an account reaches UpsertAccounts on the transaction's handle; replay reproduces the accounts).",
+    "bounds": {"quick": "batch of 2 accounts (one with metadata, date and chart defaults, one without), accounts table of K <= 3 rows", "thorough": "K <= 4"},
+    "outside": "PIT listing of accounts by first_usage is C05; batches larger than 2; duplicate addresses inside one batch",
+    "assumptions": COMMON_ASSUME[2:] + SQL_ASSUME + ["all sub-statements of one WITH statement read the same snapshot"],
+    "technique": "bounded symbolic execution (z3) of the DML text captured from the real store, against the documented effect",
+    "units": [py_unit("writes", "writes-C18", ["--props", "C18"])],
+}
+
+CHECKS["C01"]["units"].append(py_unit("writes", "writes-C01", ["--props", "C01"]))
+CHECKS["C01"]["units"].append(py_unit("reads", "reads-C01", ["--props", "C01"]))
+CHECKS["C01"]["explanation"] = CHECKS["C01"]["explanation"].replace(" The SQL half (upsert, PIT reads) is not covered yet.", "") + " SQL half: the UpdateVolumes upsert captured from the real store, executed on a symbolic accounts_volumes table, preserves 'sum of inputs = sum of outputs per asset' whenever the written deltas are balanced (which the Go half shows), and the aggregated-balance reads at a PIT report conserved totals when every move has its twin (the pairing shown by C03)."
+CHECKS["C01"]["outside"] = "more postings per transaction than the bound; tables with more than K <= 3 (thorough 4) rows; volumes listings with PIT are compared with the fold (C05) rather than re-checked for conservation; names are atoms in the Go half"
+CHECKS["C01"]["assumptions"] = COMMON_ASSUME + SQL_ASSUME
+CHECKS["C02"]["units"].append(py_unit("writes", "writes-C02", ["--props", "C02"]))
+CHECKS["C02"]["units"].append(py_unit("reads", "reads-C02", ["--props", "C02"]))
+CHECKS["C02"]["explanation"] += " SQL link: the UpdateVolumes upsert captured from the real store adds exactly the deltas to the (account, asset) rows it names, creates them when absent, changes nothing else and RETURNs the post values; the aggregated-balances read returns the sums of the volume rows of this ledger; volumes listings are covered by C05 (window 'none')."
+CHECKS["C02"]["outside"] = "GetAccount / ListAccounts expand=volumes without PIT is covered in C05; the store model adds VolumeUpdates() to the rows (linked to the SQL by the upsert obligation for 2 rows at a time)"
+CHECKS["C02"]["assumptions"] = COMMON_ASSUME + DBMODEL_ASSUME + SQL_ASSUME
+CHECKS["C15"]["units"].append(py_unit("writes", "writes-C15", ["--props", "C15"]))
+CHECKS["C15"]["explanation"] += " (c) SQL link: the revert update captured from the real store (updateTxWithRetrieve) marks exactly the row (id, ledger) whose reverted_at is null, returns it with modified=true, and otherwise returns the existing row with modified=false and changes nothing."
+CHECKS["C15"]["outside"] = "concurrent reverts of one transaction (row-lock behaviour of PostgreSQL); transactions outside the listed shapes"
+CHECKS["C15"]["assumptions"] = COMMON_ASSUME + DBMODEL_ASSUME + SQL_ASSUME
+CHECKS["C17"]["units"].append(py_unit("writes", "writes-C17", ["--props", "C17"]))
+CHECKS["C17"]["explanation"] += " Write half: the metadata statements captured from the real store (UpdateAccountsMetadata upsert, DeleteAccountMetadata, Update/DeleteTransactionMetadata) executed on symbolic tables: last-write-wins merge per key, a delete removes exactly the key, the modified flag tells whether anything changed, no other row changes."
+CHECKS["C17"]["outside"] = "the history triggers (revision numbering, the date stored with a revision) are not encoded; metadata filters; more than 2 keys"
+CHECKS["C19"]["units"].append(py_unit("writes", "writes-C19", ["--props", "C19"]))
+CHECKS["C19"]["explanation"] += " Writes: every captured write statement (volume upsert, account upserts, metadata updates and deletes, revert update) executed on symbolic tables leaves every row of another ledger — and every row it does not name — unchanged."
+CHECKS["C19"]["outside"] = "trigger bodies and log/transaction inserts (sequences); that the alone-in-bucket flag is only set while the bucket holds one ledger; several server processes sharing a bucket"
